@@ -14,8 +14,12 @@
    MinVersion = 0.0.0.dev0 as lower end and rebuild its extension object from its canonical text
    (hypothesis min_reread: the parser reads that text back as the same version).
    Not proved: versions written with fewer or more than three numbers, bounds that are pre-, post-
-   or dev-releases, the comma list, the step from requirement text to these calls, and the
-   operators ~=V and ==V.* / !=V.* (decided by the oracle on every run). *)
+   or dev-releases - so ~=M.m and the star form with one number are not covered, only the three-number forms
+   ~=M.m.p, ==M.m.star, !=M.m.star - the comma list, the step from requirement text to these calls.
+   Partial statements: C03_pypi_ne_partial needs M.m.p <> 0.0.0 and C03_pypi_prefix_ne_partial
+   needs M.m <> 0.0; what is missing is exactly the case refuted next to each of them (the
+   first span of the exclusion collapses to a unit span whose open end is ignored, F-C03-1a),
+   which no candidate of the domain (non-zero release segment) can observe. *)
 From DepsDev Require Import Lib.Base Semver.Version Semver.Compare Semver.Span Semver.Interval Semver.Set
      Semver.C03_pypi_proofs Gen.SemverTables.
 From DepsDev Require Spec.Pep440Specifier.
@@ -78,6 +82,41 @@ Theorem C03_pypi_ne_zero_refuted : forall str,
 Proof. exact ne_zero_unit. Qed.
 Print Assumptions C03_pypi_ne_zero_refuted.
 
+(* ~=M.m.p : the span [M.m.p, M.m.inf] against packaging's PCompat: >=M.m.p together with the prefix match on M.m *)
+Theorem C03_pypi_compatible_sound : forall pv str M m p, fin M -> fin m -> fin p ->
+  span_sound (op_version_to_span pv go_tokBacon (mk3p str M m p)) (spec_of Spec.Pep440Specifier.PCompat M m p false [M; m; p]).
+Proof. exact compat_sound. Qed.
+Print Assumptions C03_pypi_compatible_sound.
+
+(* ==M.m.star : mk3w is M.m.star as the parser delivers it (numbers M, m, wildcard); the span is
+   [M.m.0, M.m.inf]; packaging: the candidate, padded with zeros, starts with M.m *)
+Theorem C03_pypi_prefix_eq_sound : forall pv str M m, fin M -> fin m ->
+  span_sound (op_version_to_span pv go_tokEqual (mk3w str M m)) (spec_of Spec.Pep440Specifier.PEq M m 0 true [M; m]).
+Proof. exact prefix_eq_sound. Qed.
+Print Assumptions C03_pypi_prefix_eq_sound.
+
+(* the arithmetic behind both: U starts with M.m iff it lies between M.m.0 and M.m.inf *)
+Theorem C03_pypi_prefix_between : forall M m U, fin M -> fin m -> Forall fin U ->
+  Spec.Pep440Specifier.prefix_match [M; m] U = (0 <=? compare_nums U [M; m; 0]) && (0 <=? compare_nums [M; m; infinity] U).
+Proof. exact prefix_between. Qed.
+Print Assumptions C03_pypi_prefix_between.
+
+(* !=M.m.star : excludeToSpans yields [0.0.0, M.m.0) and (M.m.inf, inf.inf.inf].  Partial: M.m <> 0.0 *)
+Theorem C03_pypi_prefix_ne_partial : forall pv str M m, fin M -> fin m -> (M <> 0 \/ m <> 0) ->
+  exists s1 s2, exclude_to_spans pv (mk3w str M m) = Ok (s1, s2) /\
+    forall u U pre, pcand u U ->
+      match_spans u pre [s1; s2] = Ok (Spec.Pep440Specifier.contains1 (spec_of Spec.Pep440Specifier.PNe M m 0 true [M; m]) U).
+Proof. exact prefix_ne_sound. Qed.
+Print Assumptions C03_pypi_prefix_ne_partial.
+
+(* ... because for 0.0.star the first span is the unit span {0.0.0} with an ignored open end *)
+Theorem C03_pypi_prefix_ne_zero_refuted : forall s,
+  new_span (zero_version SPyPI) false (mk3p s 0 0 0) true =
+  Ok {| sp_rank := RUnit; sp_min_open := false; sp_max_open := true;
+        sp_min := Some (zero_version SPyPI); sp_max := Some (zero_version SPyPI) |}.
+Proof. exact prefix_ne_zero_unit. Qed.
+Print Assumptions C03_pypi_prefix_ne_zero_refuted.
+
 (* the hypotheses are inhabited: 1.2.0 is a candidate; a parser that re-reads 0.0.0.dev0 exists;
    and the span of >=1.2.0 matches 1.2.0 and not 1.1.9 *)
 Example C03_pypi_candidate_inhabited : pcand (mk3p nil 1 2 0) [1; 2; 0].
@@ -95,6 +134,36 @@ Example C03_pypi_ge_inhabited :
   match op_version_to_span (fun _ _ _ => Err E_parse) go_tokGreaterEqual (mk3p nil 1 2 0) with
   | Ok s => match match_span (mk3p nil 1 2 0) false s, match_span (mk3p nil 1 1 9) false s with
             | Ok true, Ok false => true | _, _ => false end
+  | _ => false
+  end = true.
+Proof. vm_compute. reflexivity. Qed.
+
+(* ~=1.2.3 matches 1.2.3 and 1.2.9 but not 1.3.0 nor 1.2.2; ==1.2.star matches 1.2.0 and 1.2.7, not
+   1.3.0; !=1.2.star matches 1.3.0 and 1.1.9, not 1.2.5 (evaluated in the model) *)
+Definition never_pv : system -> bool -> bytes -> res parse_out := fun _ _ _ => Err E_parse.
+Definition yes (r : res bool) : bool := match r with Ok true => true | _ => false end.
+Definition no (r : res bool) : bool := match r with Ok false => true | _ => false end.
+
+Example C03_pypi_compatible_inhabited :
+  match op_version_to_span never_pv go_tokBacon (mk3p nil 1 2 3) with
+  | Ok s => yes (match_span (mk3p nil 1 2 3) false s) && yes (match_span (mk3p nil 1 2 9) false s)
+            && no (match_span (mk3p nil 1 3 0) false s) && no (match_span (mk3p nil 1 2 2) false s)
+  | _ => false
+  end = true.
+Proof. vm_compute. reflexivity. Qed.
+
+Example C03_pypi_prefix_eq_inhabited :
+  match op_version_to_span never_pv go_tokEqual (mk3w nil 1 2) with
+  | Ok s => yes (match_span (mk3p nil 1 2 0) false s) && yes (match_span (mk3p nil 1 2 7) false s)
+            && no (match_span (mk3p nil 1 3 0) false s)
+  | _ => false
+  end = true.
+Proof. vm_compute. reflexivity. Qed.
+
+Example C03_pypi_prefix_ne_inhabited :
+  match exclude_to_spans never_pv (mk3w nil 1 2) with
+  | Ok (s1, s2) => yes (match_spans (mk3p nil 1 3 0) false [s1; s2]) && yes (match_spans (mk3p nil 1 1 9) false [s1; s2])
+                   && no (match_spans (mk3p nil 1 2 5) false [s1; s2])
   | _ => false
   end = true.
 Proof. vm_compute. reflexivity. Qed.
